@@ -188,9 +188,9 @@ func init() {
 		ID: "C29",
 		Explanation: "Decides structural necessary conditions of 'cancellation never yields a wrong parse' on every generated parser package and the hand-written js parse loop: CANCEL: every loop that shifts tokens in a function taking a context polls ctx.Done(); every poll is governed by (sharedCounter & M) == 0 with M = 2^k-1 <= 0x1ff, and all sites of a package use the same mask (an equality+reset at one site is starved by increments at another). " +
 			"ERRFLOW: for every call of a function whose error may be ctx.Err() (computed as a fixpoint from `return ctx.Err()`), the error value reaches a return of the caller — it is neither discarded nor replaced by nil. " +
-			"Not decided: cancellation inside the lexer fetch, equality of events with an uncancelled parse (the poll branch only returns, which is checked by the shape of the select).",
-		Rules: []string{"CANCEL", "ERRFLOW"},
-		Run:   func(c *Ctx) { ruleCANCEL(c); ruleERRFLOW(c) },
+			"Not decided: cancellation inside the lexer fetch, equality of events with an uncancelled parse (the poll branch only returns, which is checked by the shape of the select). ERRFLOW(must-return): in the generated ast.Parse wrappers a non-nil parser error (ctx.Err() included) is returned on every path from the err != nil test; no return with another error value is reachable.",
+		Rules: []string{"CANCEL", "ERRFLOW", "ERRFLOW(must-return)"},
+		Run:   func(c *Ctx) { ruleCANCEL(c); ruleERRFLOW(c); ruleERRMUST(c) },
 	})
 }
 
